@@ -37,6 +37,9 @@ func genInterleaved(rt *rapid.T) multiPlan {
 	var m multiPlan
 	b := genPlanOf(rt, []string{"http", "http", "http", "socks5", "ssnone"})
 	b.Cmd, b.EnableTCP, b.BadTarget, b.Glue = 1, true, "", false
+	// round-6 dimensions of the single-session generator that do not belong here: TLS (its own client
+	// object state is covered per session by TestHandshake), non-CONNECT requests (always aborted)
+	b.TLS, b.TLSReq, b.TLSCert, b.TLSCN, b.TLS12, b.HostForm, b.HostVerb = false, false, "", "", false, "", ""
 	want := byte(0)
 	if b.SrvAuth {
 		want = 2
